@@ -428,12 +428,27 @@ func c17CallersPassID(w *core.World, f *core.FuncInfo, idField *types.Var, depth
 		return false
 	}
 	n := 0
+	type site struct {
+		caller *core.FuncInfo
+		arg    ast.Expr
+	}
+	var sites []site
 	for _, cs := range w.Callers(f.Obj) {
 		if w.IsTestFile(cs.Call.Pos()) || idx >= len(cs.Call.Args) {
 			continue
 		}
+		sites = append(sites, site{cs.Caller, cs.Call.Args[idx]})
+	}
+	// calls through a struct field the function is stored in ((*XAConn).XaCommit in a table of phase-two actions)
+	for _, vc := range w.ValueCallers(f.Obj) {
+		if w.IsTestFile(vc.Call.Pos()) || idx+vc.Shift >= len(vc.Call.Args) {
+			continue
+		}
+		sites = append(sites, site{vc.Caller, vc.Call.Args[idx+vc.Shift]})
+	}
+	for _, cs := range sites {
 		n++
-		o := origin(cs.Caller, cs.Call.Args[idx], 4)
+		o := origin(cs.caller, cs.arg, 4)
 		switch {
 		case strings.HasPrefix(o, "call:pkg/datasource/sql.XaIdBuild("):
 		case idField != nil && strings.HasSuffix(o, "."+idField.Name()):
@@ -447,7 +462,7 @@ func c17CallersPassID(w *core.World, f *core.FuncInfo, idField *types.Var, depth
 				return false
 			}
 		case strings.HasPrefix(o, "param:"):
-			if !c17CallersPassID(w, cs.Caller, idField, depth-1) {
+			if !c17CallersPassID(w, cs.caller, idField, depth-1) {
 				return false
 			}
 		default:
